@@ -134,8 +134,14 @@ def next_state(op, names, defaults):
     elif kind == 'remove':
         if arg in names:
             names.remove(arg)
+            # a removed profile is no default profile any more (no defaults left = all profiles); the abstract state follows, so that a
+            # later re-registration of the same name is compared with a registry whose defaults were dropped too
+            # (corrected false alarm of the thorough tier: the stale default used to stay in the abstract state)
+            if defaults is not None:
+                defaults = tuple(d for d in defaults if d != arg) or None
     elif kind == 'removeall':
         names = []
+        defaults = None
     elif kind == 'default':
         defaults = tuple(arg) if arg else None
     return tuple(names), defaults
